@@ -351,6 +351,13 @@ func (m *overlappingFieldsCanBeMergedManager) collectConflictsBetweenFragments(c
 func (m *overlappingFieldsCanBeMergedManager) findConflictsBetweenSubSelectionSets(areMutuallyExclusive bool, selectionSetA ast.SelectionSet, selectionSetB ast.SelectionSet) *conflictMessageContainer {
 	var conflicts conflictMessageContainer
 
+	// The set of compared fragments belongs to one traversal. A caller further up may be in the
+	// middle of its own (collectConflictsBetweenFieldsAndFragment recursing through nested
+	// spreads); the sets made below must not replace it, or mutually recursive fragments are
+	// never recognised as already visited.
+	outer := m.comparedFragments
+	defer func() { m.comparedFragments = outer }()
+
 	fieldsMapA, fragmentSpreadsA := getFieldsAndFragmentNames(selectionSetA)
 	fieldsMapB, fragmentSpreadsB := getFieldsAndFragmentNames(selectionSetB)
 
